@@ -223,7 +223,8 @@ def getitem_attribution(case, ans):
       (`codeDense` = `Op.td`, printed by the driver) differs from `den`.  Attributed only to an entry (p, q) of the answer whose
       source entry differs, `codeDense[ia[p]][ja[q]] != den[ia[p]][ja[q]]`, and which inherits exactly that value; for an
       answer that is not an operator (scalar, vector, error) only if the whole answer IS NumPy indexing of `codeDense`
-      (`tdIndex`; or of `codeDenseR` = `I @ A`, `tdIndexR`: rows are read by `e_i @ A`) and that matrix differs from `den`.
+      (`tdIndex`; or of `codeDenseR` = `I @ A`, `tdIndexR`: rows are read by `e_i @ A`; or of `codeDenseM` = `A @ I`, `tdIndexM`:
+      columns are read by `A @ e_j`, which is not how `to_dense` of a wide operand is computed) and that matrix differs from `den`.
     An entry that differs from the outer selection anywhere else is unexplained."""
     ids, code, den, td = case["ids"], ans["code"], ans.get("den"), ans.get("codeDense")
     rows, cols = ans.get("rows", 0), ans.get("cols", 0)
@@ -242,7 +243,7 @@ def getitem_attribution(case, ans):
     if code.get("kind") != "op" or len(ids) != 2:
         # scalar / vector / error answers: the indexing step itself must be NumPy indexing of the operand's own dense matrix
         # (`codeDense` = A @ I, what columns are read from, or `codeDenseR` = I @ A, what rows are read from)
-        for dk, ik in (("codeDense", "tdIndex"), ("codeDenseR", "tdIndexR")):
+        for dk, ik in (("codeDense", "tdIndex"), ("codeDenseR", "tdIndexR"), ("codeDenseM", "tdIndexM")):
             ti, dm = ans.get(ik) or {}, ans.get(dk)
             keys = [k for k in ("kind", "value", "rows", "cols") if k in code or k in ti]
             if tree and dm is not None and dm != den and all(code.get(k) == ti.get(k) for k in keys):
